@@ -943,6 +943,7 @@ func runPfcpCase(f *fixture, c jCase) []oEvent {
 	}
 	f.drain()
 	var allHex []string
+	var scribble [][]byte
 	for i := range c.Events {
 		ev := &c.Events[i]
 		dp.script(ev)
@@ -965,6 +966,7 @@ func runPfcpCase(f *fixture, c jCase) []oEvent {
 				if it.Dld != nil {
 					pk, _ := hex.DecodeString(it.Dld.Pkt)
 					sr.Reports = append(sr.Reports, report.DLDReport{PDRID: it.Dld.PDR, Action: it.Dld.Action, BufPkt: pk})
+					scribble = append(scribble, pk)
 				} else if it.Usa != nil {
 					sr.Reports = append(sr.Reports, toUSAReport(*it.Usa))
 				}
@@ -990,6 +992,14 @@ func runPfcpCase(f *fixture, c jCase) []oEvent {
 			}
 		}
 		alive := f.barrierRT(2 * time.Second)
+		// the notification has been consumed (the barrier went through the event loop after it): a producer may now
+		// reuse its buffer - whatever the server still holds must be its own copy (C13: held packets stay intact)
+		for _, b := range scribble {
+			for j := range b {
+				b[j] ^= 0xa5
+			}
+		}
+		scribble = scribble[:0]
 		for _, d := range f.drain() {
 			s := decodeDatagram(d[0].(int), d[1].([]byte))
 			s.Class = len(allHex)
